@@ -461,7 +461,8 @@ func (l *nrLayout) inputKeys(obj *ref.Obj, k int, into *[]string) {
 	}
 }
 
-// extract: the @requires input a representation carries (ok=false: an input is missing).
+// extract: the @requires input a representation carries (ok=false: an input is missing or has the wrong shape).
+// A null the representation carries for a hop or the leaf is kept as null.
 func (l *nrLayout) extract(rep map[string]any, k int) (map[string]any, bool) {
 	f := l.Path[k]
 	v, has := rep[f.Name]
@@ -475,15 +476,19 @@ func (l *nrLayout) extract(rep map[string]any, k int) (map[string]any, bool) {
 		if x == nil {
 			return nil, true
 		}
-		m, ok := x.(map[string]any)
+		m, isObj := x.(map[string]any)
+		if !isObj {
+			return nil, false
+		}
+		e, ok := l.extract(m, k+1)
 		if !ok {
 			return nil, false
 		}
-		return l.extract(m, k+1)
+		return e, true
 	}
 	if f.List {
-		arr, ok := v.([]any)
-		if !ok {
+		arr, isList := v.([]any)
+		if !isList {
 			return nil, false
 		}
 		out := make([]any, len(arr))
@@ -492,9 +497,6 @@ func (l *nrLayout) extract(rep map[string]any, k int) (map[string]any, bool) {
 			if !ok {
 				return nil, false
 			}
-			if m, isMap := e.(map[string]any); isMap && m == nil {
-				e = nil
-			}
 			out[i] = e
 		}
 		return map[string]any{f.Name: out}, true
@@ -502,9 +504,6 @@ func (l *nrLayout) extract(rep map[string]any, k int) (map[string]any, bool) {
 	e, ok := one(v)
 	if !ok {
 		return nil, false
-	}
-	if m, isMap := e.(map[string]any); isMap && m == nil {
-		return map[string]any{f.Name: nil}, true
 	}
 	return map[string]any{f.Name: e}, true
 }
@@ -645,7 +644,7 @@ type nrRequest struct {
 	Shapes   []string
 	HitKeys  []string // the fault (nrFieldFault / nrEntFault key) behind each entry of Shapes
 	EntTypes []string // per representation: typename
-	EntIDs    []string // per representation: id
+	EntIDs   []string // per representation: id
 }
 
 type nrServer struct {
@@ -981,12 +980,12 @@ func newNrRig(l *nrLayout) (*nrRig, error) {
 }
 
 type nrRun struct {
-	Raw      string
-	Err      error
-	Data     any
-	HasData  bool
-	Errors   []any
-	Requests []*nrRequest
+	Raw                            string
+	Err                            error
+	Data                           any
+	HasData                        bool
+	Errors                         []any
+	Requests                       []*nrRequest
 	panicMsg, panicSig, panicStack string
 }
 
@@ -1104,7 +1103,7 @@ type nrPlan struct {
 	faults nrFaults
 	desc   map[string]string
 	kinds  []string
-	role   string // what the partial faults hit: required-input | computed | independent | "" (whole-request faults only)
+	role   string            // what the partial faults hit: required-input | computed | independent | "" (whole-request faults only)
 	roles  map[string]string // per partial fault (nrFieldFault / nrEntFault key): its role
 }
 
@@ -1305,6 +1304,9 @@ func (p c07) runNested(c *fw.Ctx, idx int) fw.Result {
 			partial = append(partial, &nrPlan{faults: nrFaults{ents: map[string]bool{ek: true}}, desc: map[string]string{rq.Subgraph + ": entity " + tn + " " + id: "partial-entity-null"}, kinds: []string{"partial-entity-null"}, role: roleOf(ps), roles: map[string]string{ek: roleOf(ps)}})
 		}
 	}
+	// (the order of the fault-free requests depends on scheduling: a fixed order for the seeded pairs below)
+	sort.Slice(partial, func(i, j int) bool { return fmt.Sprint(partial[i].desc) < fmt.Sprint(partial[j].desc) })
+	nWhole := len(plans)
 	plans = append(plans, partial...)
 	// pairs: two partial faults, and one partial fault with one whole-request fault
 	merge := func(a, b *nrPlan) *nrPlan {
@@ -1340,7 +1342,6 @@ func (p c07) runNested(c *fw.Ctx, idx int) fw.Result {
 				plans = append(plans, merge(partial[i], partial[j]))
 			}
 		}
-		nWhole := len(plans) - len(partial)
 		for n := 0; n < 2 && nWhole > 0; n++ {
 			plans = append(plans, merge(partial[r.IntN(len(partial))], plans[r.IntN(nWhole)]))
 		}
@@ -1367,11 +1368,11 @@ func (p c07) runNested(c *fw.Ctx, idx int) fw.Result {
 			}
 		}
 		match := map[string]string{
-			"family":                                      "nested-requires",
-			"validate_required_external_fields":           fmt.Sprint(l.Validate),
-			"fault_kinds":                                 strings.Join(pl.kinds, "+"),
-			"faults":                                      fmt.Sprint(len(pl.kinds)),
-			"operation_kind":                              "query",
+			"family":                            "nested-requires",
+			"validate_required_external_fields": fmt.Sprint(l.Validate),
+			"fault_kinds":                       strings.Join(pl.kinds, "+"),
+			"faults":                            fmt.Sprint(len(pl.kinds)),
+			"operation_kind":                    "query",
 			"faulted_request_has_single_representation":   fmt.Sprint(singleRep),
 			"entity_count_fault_on_single_entity_request": fmt.Sprint(countOnSingle),
 			"partial_fault_hits":                          pl.role,
